@@ -52,6 +52,14 @@ structure OpFacts where
   bitlen : List (Kind × Nat)
   /-- typecheck.go `representableConst`, signed arm -/
   signedRepr : ReprMode
+  /-- typecheck.go `convertUntyped`, arm `isNumber(ttyp) || isString(ttyp) || isBoolean(ttyp)`: starts with
+      `if n.typ.isNil() || isBoolean(ntyp) != isBoolean(ttyp) { return convErr }` (385eb77) -/
+  convNilBoolGuard : Bool
+  /-- type.go `assignableTo`: `if t.isNil() || o.isNil() { return false }` precedes the reflect `AssignableTo` test (385eb77) -/
+  assignNilGuard : Bool
+  /-- typecheck.go `assignment`: an untyped operand assigned to an interface type is converted to its default type
+      (`ctyp`) and then checked against the interface type itself (385eb77); before, `typ` itself was replaced -/
+  constIfaceChecked : Bool
   deriving DecidableEq, Repr
 
 def lookup {α β : Type} [DecidableEq α] (k : α) : List (α × β) → Option β
@@ -111,12 +119,21 @@ inductive SkipCond where
   | andBin | orBin | other (s : String)
   deriving DecidableEq, Repr, Inhabited
 
+/-- typecheck.go `zeroConst` -/
+inductive ZeroMode where
+  | untypedSign     -- `n.typ.untyped && constant.Sign(n.rval.Interface().(constant.Value)) == 0` (panics on non go/constant values)
+  | numericConst    -- a valid value of numeric type: `constant.Sign == 0`, or non-settable and `IsZero()` (03fb34b, 4bcc5b4)
+  | other (s : String)
+  deriving DecidableEq, Repr, Inhabited
+
 structure TcFacts where
   ops : OpFacts
-  /-- cfg.go `case landExpr` / `case lorExpr` contain a call of a `check.` method -/
+  /-- cfg.go `case landExpr` / `case lorExpr` call `check.logicalExpr(n)` and leave on its error -/
   landLorChecked : Bool
-  /-- cfg.go `case sendStmt` checks the sent value (a `check.` call) -/
+  /-- cfg.go `case sendStmt` checks the sent value (`check.assignment(n.child[1], ctyp.elem(), "send")`) -/
   sendValueChecked : Bool
+  /-- cfg.go `case sendStmt` rejects a receive-only channel (`ChanDir() == reflect.RecvDir`) -/
+  sendDirChecked : Bool
   /-- typecheck.go `arguments`: the operator of `cnt < fun.typ.numIn()` -/
   argCountCmp : CmpTok
   /-- cfg.go returnStmt: the operators of `len(n.child) > numOut` and `nret < numOut` -/
@@ -126,6 +143,32 @@ structure TcFacts where
   condBoolGuarded : Bool
   /-- typecheck.go typeAssertionExpr: when is a missing method ignored -/
   assertSkipMissing : SkipCond
+  /-- cfg.go returnStmt: `if c.typ.untyped && isNumber(typ.TypeOf()) { … check.representable(c, typ.TypeOf()) … }` -/
+  retConstChecked : Bool
+  /-- typecheck.go binaryExpr: the errors of the two `convertUntyped` calls are returned for a comparison -/
+  cmpConvErrKept : Bool
+  /-- typecheck.go `zeroConst` -/
+  zeroConst : ZeroMode
+  /-- typecheck.go binaryExpr: the zero-divisor cases list `aRemAssign` / `aQuoAssign` too -/
+  opAssignZeroChecked : Bool
+  /-- typecheck.go binaryExpr, `aQuo`: the zero test is `zeroConst(c1) && (c0.rval.IsValid() || isInt(c0.typ.TypeOf()))` -/
+  quoFloatZeroOk : Bool
+  /-- typecheck.go `index`: a negative constant index is an error, whatever `max` -/
+  indexNegChecked : Bool
+  /-- cfg.go `case indexExpr`: the operand must support indexing (kind test before the element type is taken,
+      `!isGeneric(t)` for a function, `n.typ == nil` before `sc.add`) -/
+  indexOperandChecked : Bool
+  /-- cfg.go assignStmt, "assign by reading from a receiving channel": skipped when `dest.typ.id() != src.typ.id()` -/
+  recvDeclKeepsType : Bool
+  /-- cfg.go unaryExpr, `v = <op> x` shortcut: the "destination is an interface" test applies to a receive too
+      (no `n.action != aRecv &&`) -/
+  recvAssignChecked : Bool
+  /-- cfg.go callExpr: `check.callValue(n)` -/
+  callValueChecked : Bool
+  /-- typecheck.go conversion: a typed constant converted to a numeric type must be representable
+      (`c == nil && n.rval.IsValid() && isNumber(typ.TypeOf())` → `check.representable`, which reads plain Go
+      values through `constValue`) (7402c20) -/
+  convTypedConstChecked : Bool
   deriving DecidableEq, Repr
 
 def CmpTok.eval : CmpTok → Nat → Nat → Bool
@@ -314,6 +357,7 @@ def assignableToY (F : OpFacts) (t o : Ty) (rv : RVal) : Res Bool :=
       (match (if o.isNil then hasNilT t else .ok false) with
        | .ok true => .ok true
        | .ok false =>
+         if F.assignNilGuard && (t.isNil || o.isNil) then .ok false else
          (match t.rtype?, o.rtype? with
           | some rt, some ro => .ok (assignableTailY F t o rv rt ro)
           | _, _ => .crash)            -- AssignableTo on / of the nil reflect.Type
@@ -345,6 +389,8 @@ def convertUntypedY (F : OpFacts) (n : Opnd) (typ : Ty) : Res Opnd :=
     | _, _ => .crash
   else if typ.isNil && n.ty.isNil then .ok ⟨typ, n.rv⟩
   else if isNumberT F typ || isStringT F typ || isBooleanT F typ then
+    -- nil, true and false are not go/constant values: rejected here since 385eb77
+    if F.convNilBoolGuard && (n.ty.isNil || isBooleanT F n.ty != isBooleanT F typ) then .err else
     -- representable + convertConst (only go/constant values are examined)
     match n.rv, typ.kind? with
     | .const c, some k => if representableConstY F c k then .ok ⟨typ, n.rv⟩ else .err
@@ -366,8 +412,9 @@ def okIf (b : Bool) : Res Unit := if b then .ok () else .err
 def assignmentY (F : OpFacts) (n : Opnd) (typ : Ty) : Res Unit :=
   if n.ty.isNil && isInterfaceT typ then .ok ()          -- defaultType of nil is nil itself
   else
-    let typ' := if n.ty.isUntyped && isInterfaceT typ then defaultTypeY n.ty else typ
-    match (if n.ty.isUntyped then convertUntypedY F n typ' else .ok n) with
+    let ctyp := if n.ty.isUntyped && isInterfaceT typ then defaultTypeY n.ty else typ
+    let typ' := if F.constIfaceChecked then typ else ctyp
+    match (if n.ty.isUntyped then convertUntypedY F n ctyp else .ok n) with
     | .ok n' =>
       (match assignableToY F n'.ty typ' n'.rv with
        | .ok b => okIf b
@@ -377,12 +424,22 @@ def assignmentY (F : OpFacts) (n : Opnd) (typ : Ty) : Res Unit :=
 /-! ### the rules of each context -/
 
 /-- `zeroConst` -/
-def zeroConstY (n : Opnd) : Res Bool :=
-  if !n.ty.isUntyped then .ok false else
-  match n.rv with
-  | .const (.int v) => .ok (v == 0)
-  | .const (.float v f) => .ok (v == 0 && !f)
-  | _ => .crash      -- constant.Sign of a string, type assertion of a Go bool, Interface() of an invalid Value
+def zeroConstY (T : TcFacts) (n : Opnd) : Res Bool :=
+  match T.zeroConst with
+  | .untypedSign =>
+    if !n.ty.isUntyped then .ok false else
+    match n.rv with
+    | .const (.int v) => .ok (v == 0)
+    | .const (.float v f) => .ok (v == 0 && !f)
+    | _ => .crash      -- constant.Sign of a string, type assertion of a Go bool, Interface() of an invalid Value
+  | .numericConst =>
+    if !n.rv.valid || !isNumberT T.ops n.ty then .ok false else
+    match n.rv with
+    | .const (.int v) => .ok (v == 0)
+    | .const (.float v f) => .ok (v == 0 && !f)
+    | .typed (some v) => .ok (v == 0)          -- a plain Go value: `IsZero()`
+    | _ => .ok false
+  | .other _ => .abstain
 
 def bothConstant (x y : Opnd) : Bool := x.isConst && y.isConst
 
@@ -415,19 +472,25 @@ def binResultTy (F : OpFacts) (x y : Opnd) : Ty :=
     was pre-set to the destination type of the enclosing statement (pre-order propagation); then
     (i) the `+` guard compares number-ness of that type and of the operands, (ii) the node keeps
     that type (except `%`, whose type is reset to the left operand's). -/
-def arithY (F : OpFacts) (op : BinOp) (assignForm : Bool) (z : Option Ty) (x y : Opnd) : Res Opnd := do
-  if !assignForm then
-    match op with
-    | .add =>
+def arithY (T : TcFacts) (op : BinOp) (assignForm : Bool) (z : Option Ty) (x y : Opnd) : Res Opnd := do
+  let F := T.ops
+  match op with
+  | .add =>
+    if !assignForm then
       let mixed := match z with
         | some t => isNumberT F t != isNumberT F x.ty || isNumberT F t != isNumberT F y.ty
         | none => false
       if mixed then .err
-    | .rem => if ← zeroConstY y then .err
-    | .quo =>
-      if ← zeroConstY y then .err
-      if x.rv.valid && y.rv.valid then .abstain           -- constant quotient: folding (C03)
-    | _ => pure ()
+  | .rem =>
+    -- `case aRem, aRemAssign` (the assignment forms are listed since 03fb34b)
+    if !assignForm || T.opAssignZeroChecked then
+      if ← zeroConstY T y then .err
+  | .quo =>
+    if !assignForm || T.opAssignZeroChecked then
+      -- since 03fb34b a floating-point or complex variable may be divided by a constant zero
+      if (← zeroConstY T y) && (!T.quoFloatZeroOk || x.rv.valid || isIntT F x.ty) then .err
+      -- (until 4bcc5b4 a constant quotient left here; constant operands never reach this rule: `binY`)
+  | _ => pure ()
   -- `_ = check.convertUntyped(c0, c1.typ)`: the error is dropped, a Go panic is not
   let x' ← (match convertUntypedY F x y.ty with | .err => Res.ok x | r => r)
   let y' ← (match convertUntypedY F y x'.ty with | .err => Res.ok y | r => r)
@@ -442,8 +505,23 @@ def arithY (F : OpFacts) (op : BinOp) (assignForm : Bool) (z : Option Ty) (x y :
   | none => .err
 
 /-- `&&` / `||`: cfg.go wires the operands and takes the type of the left one -/
+def logicalOperandY (F : OpFacts) (op : BinOp) (c : Opnd) : Res Unit :=
+  match c.ty.kind? with
+  | some k => if binaryY F op.op.action k then .ok () else .err
+  | none => .err                                   -- `isBoolean(nil)` is false
+
+/-- `typecheck.logicalExpr` (5877dba): each operand goes through the `aLand` / `aLor` entry of `binaryOpPredicates`,
+    untyped operands are converted, the two types must be equal unless one operand is a comparison
+    (`isComparison`: the operands whose value is the untyped boolean of the fragment, `RVal.ubool`).
+    Before the repair cfg.go wired the operands and took the type of the left one without any check. -/
 def landLorY (T : TcFacts) (op : BinOp) (x y : Opnd) : Res Opnd :=
-  if T.landLorChecked then arithY T.ops op false none x y
+  if T.landLorChecked then do
+    logicalOperandY T.ops op x
+    logicalOperandY T.ops op y
+    let x' ← (match convertUntypedY T.ops x y.ty with | .err => Res.ok x | r => r)
+    let y' ← (match convertUntypedY T.ops y x'.ty with | .err => Res.ok y | r => r)
+    if !equalsT x'.ty y'.ty && !(x.rv == .ubool) && !(y.rv == .ubool) then .err
+    .ok ⟨x'.ty, boolResultRv x y⟩
   else
     match x.ty with
     | .nil => .crash           -- `sc.add(n.typ)` on the untyped nil: "nil reflect type"
@@ -453,12 +531,16 @@ def binY (T : TcFacts) (op : BinOp) (z : Option Ty) (x y : Opnd) : Res Opnd :=
   if bothConstant x y then .abstain       -- constant folding is the subject of C03
   else match op with
     | .land | .lor => landLorY T op x y
-    | _ => arithY T.ops op false z x y
+    | _ => arithY T op false z x y
 
 def cmpY (T : TcFacts) (op : CmpOp) (x y : Opnd) : Res Opnd := do
   if bothConstant x y then .abstain
-  let x' ← (match convertUntypedY T.ops x y.ty with | .err => Res.ok x | r => r)
-  let y' ← (match convertUntypedY T.ops y x'.ty with | .err => Res.ok y | r => r)
+  let rx := convertUntypedY T.ops x y.ty
+  let x' ← (match rx with | .err => Res.ok x | r => r)
+  let ry := convertUntypedY T.ops y x'.ty
+  let y' ← (match ry with | .err => Res.ok y | r => r)
+  -- since 03fb34b the conversion errors are returned (after both conversions have run)
+  if T.cmpConvErrKept && (rx == .err || ry == .err) then .err
   comparisonY T.ops op x' y'
 
 /-- `typecheck.shift` -/
@@ -503,6 +585,14 @@ def convY (T : TcFacts) (typ : Ty) (x : Opnd) : Res Opnd := do
   let F := T.ops
   if typ.isUntyped then .err
   let c : Option CVal := match x.rv with | .const c => some c | _ => none
+  -- 7402c20: the conversion of a typed constant to a numeric type is a constant conversion: `representable` on the
+  -- plain Go value. A typed constant without an integer value (`RVal.typed none`) of a floating-point type has a
+  -- fractional part; of a string or boolean type it is not a number (rejected here, and by `convertibleTo` anyway)
+  if T.convTypedConstChecked && isNumberT F typ then
+    match x.rv, typ.kind? with
+    | .typed (some v), some k => if !representableConstY F (.int v) k then .err
+    | .typed none, _ => if isIntT F typ && isFloatT F x.ty then .err
+    | _, _ => pure ()
   let ok ← (match c with
     | some c =>
       if isConstTypeT F typ then
@@ -527,31 +617,47 @@ def convY (T : TcFacts) (typ : Ty) (x : Opnd) : Res Opnd := do
   .ok ⟨typ, convResultRv typ x⟩
 
 /-- `typecheck.index` -/
-def indexCheckY (F : OpFacts) (i : Opnd) (max : Option Nat) : Res Unit := do
+def indexCheckY (T : TcFacts) (i : Opnd) (max : Option Nat) : Res Unit := do
+  let F := T.ops
   let i' ← convertUntypedY F i (.s (.basic .int))
   if !isIntT F i'.ty then .err
-  match i'.rv, max with
-  | .const (.int v), some m => if m ≥ 1 && v ≥ m then .err else .ok ()
-  | .const (.float v false), some m => if m ≥ 1 && v ≥ m then .err else .ok ()
-  | .typed (some v), some m => if m ≥ 1 && v ≥ m then .err else .ok ()
-  | _, _ => .ok ()
+  let v? : Option Int := match i'.rv with
+    | .const (.int v) | .const (.float v false) | .typed (some v) => some v
+    | _ => none
+  match v? with
+  | none => .ok ()
+  | some v =>
+    if T.indexNegChecked && v < 0 then .err           -- "index must not be negative" (03fb34b)
+    else match max with
+      | some m => if m ≥ 1 && v ≥ m then .err else .ok ()
+      | none => .ok ()
 
 /-- cfg.go `case indexExpr` -/
 def indexY (T : TcFacts) (a i : Opnd) : Res Opnd := do
   let F := T.ops
+  -- 8a6620e: "invalid operation: cannot index …" for every operand that does not support indexing (the fragment has
+  -- no pointer to array, no generic function or struct); before, the element type was nil and `sc.add(nil)` panicked,
+  -- or a later error was overwritten by the result of `check.index`
+  let bad : Res Opnd := if T.indexOperandChecked then .err else .crash
   match a.ty with
   | .s t =>
-    if t.under == .string then do indexCheckY F i none; .ok ⟨.s (.basic .uint8), .none⟩
-    else .crash                                  -- element type nil: `sc.add(nil)` panics
-  | .ptr (.basic _) => .crash
-  | .ptr (.named n) => do indexCheckY F i none; .ok ⟨.s (.basic n.under), .none⟩   -- the "does not support indexing" error is overwritten
-  | .slice t => do indexCheckY F i none; .ok ⟨.s t, .none⟩
-  | .array n t => do indexCheckY F i (some n); .ok ⟨.s t, .none⟩
+    if t.under == .string then do indexCheckY T i none; .ok ⟨.s (.basic .uint8), .none⟩
+    else bad                                     -- element type nil: `sc.add(nil)` panicked
+  | .ptr (.basic _) => bad
+  | .ptr (.named n) =>
+    if T.indexOperandChecked then .err
+    else do indexCheckY T i none; .ok ⟨.s (.basic n.under), .none⟩   -- the "does not support indexing" error was overwritten
+  | .slice t => do indexCheckY T i none; .ok ⟨.s t, .none⟩
+  | .array n t => do indexCheckY T i (some n); .ok ⟨.s t, .none⟩
   | .map k v => do assignmentY F i (.s k); .ok ⟨.s v, .none⟩
-  | .chan _ t => do indexCheckY F i none; .ok ⟨.s t, .none⟩                        -- idem
-  | .func a r => .ok ⟨.func a r, .none⟩                                           -- generic-instantiation arm returns early
-  | .struct _ _ _ => .crash
-  | .iface _ _ => .crash
+  | .chan _ t =>
+    if T.indexOperandChecked then .err
+    else do indexCheckY T i none; .ok ⟨.s t, .none⟩                  -- idem
+  | .func a r =>
+    if T.indexOperandChecked then .err
+    else .ok ⟨.func a r, .none⟩                                      -- the generic-instantiation arm returned early
+  | .struct _ _ _ => bad
+  | .iface _ _ => bad
   | .untyped _ => .abstain
   | .nil => .abstain
 
@@ -567,10 +673,16 @@ def callY (T : TcFacts) (params : List STy) (args : List Opnd) : Res Unit := do
   callArgsY T params 0 args
   if T.argCountCmp.eval args.length params.length then .err else .ok ()
 
-def callValueY (_T : TcFacts) (rets : List STy) : Res Opnd :=
+/-- `typecheck.callValue` (f150e30): a call without result, or with several, used as a single value is an error.
+    cfg.go skips the check for conversions and `callValue` takes the operand of a conversion for a call argument
+    (`anc.kind == callExpr`): there (`conv = true`) a call without result makes the conversion dereference a nil
+    type (Go panic) and a multi-value call is not described. Calls that are the whole argument list of another call
+    or the sole operand of a return are legal Go with several results: outside the description on both sides. -/
+def callValueY (T : TcFacts) (conv : Bool) (rets : List STy) : Res Opnd :=
   match rets with
   | [r] => .ok ⟨.s r, .none⟩
-  | _ => .abstain       -- a call without exactly one result used as a value: not described
+  | [] => if !T.callValueChecked then .abstain else if conv then .crash else .err
+  | _ => .abstain
 
 /-- `assignExpr` for `var v T = e` (`decl`) and `v = e`. For `v = e` whose source is a non-constant
     unary / binary operator node, the post-order shortcut of cfg.go ("store the result directly at the
@@ -589,8 +701,11 @@ def assignY (T : TcFacts) (decl : Bool) (sh : Shape) (dst : Ty) (x : Opnd) : Res
     else if dst.isIface && op != .rem then .ok dst
     else do assignmentY T.ops x dst; .ok dst
   | .recv =>
-    -- "assign by reading from a receiving channel": `dest.typ = src.typ`, the variable takes the element type
-    if decl then do assignmentY T.ops x dst; .ok x.ty else .ok dst
+    -- "assign by reading from a receiving channel": `dest.typ = src.typ`, the variable took the element type;
+    -- since 3e34c55 the shortcut is skipped when the two types differ, and `v = <-c` is treated as the other
+    -- unary operators are
+    if decl then do assignmentY T.ops x dst; .ok (if T.recvDeclKeepsType then dst else x.ty)
+    else if T.recvAssignChecked then shortcut else .ok dst
   | _ => if decl then do assignmentY T.ops x dst; .ok dst else shortcut
 
 def defineY (T : TcFacts) (x : Opnd) : Res Ty :=
@@ -604,7 +719,7 @@ def defineY (T : TcFacts) (x : Opnd) : Res Ty :=
 def opassignY (T : TcFacts) (op : BinOp) (dst : Ty) (x : Opnd) : Res Unit := do
   let _ ← (match op with
     | .land | .lor => Res.abstain
-    | _ => arithY T.ops op true none ⟨dst, .none⟩ x)
+    | _ => arithY T op true none ⟨dst, .none⟩ x)
   .ok ()
 
 def shassignY (T : TcFacts) (_op : ShOp) (dst : Ty) (x : Opnd) : Res Unit :=
@@ -617,11 +732,12 @@ def incdecY (T : TcFacts) (dst : Ty) : Res Unit := do
 def sendY (T : TcFacts) (c v : Opnd) : Res Unit := do
   let k ← kindOf c.ty
   if k != .chan then .err
-  if T.sendValueChecked then
-    match c.ty with
-    | .chan _ t => assignmentY T.ops v (.s t)
-    | _ => .err
-  else .ok ()
+  match c.ty with
+  | .chan d t =>
+    if T.sendDirChecked && d == .recv then .err        -- "cannot send to receive-only channel" (82e65a0)
+    else if T.sendValueChecked then assignmentY T.ops v (.s t)
+    else .ok ()
+  | _ => .err
 
 /-- typecheck.go `typeAssertionExpr` (called by cfg.go `case typeAssertExpr`): the operand must be of interface
     type; an empty interface or an interface target is a dynamic check; otherwise every method of the interface
@@ -655,7 +771,13 @@ def retValsY (T : TcFacts) : List STy → List (Shape × Opnd) → Res Unit
   | r :: rs, (sh, x) :: rest =>
     match sh with
     | .plain | .cmp | .shift | .recv | .arith .land | .arith .lor | .arith .rem => do
-      if ← assignableToY T.ops x.ty (.s r) x.rv then retValsY T rs rest else .err
+      if !(← assignableToY T.ops x.ty (.s r) x.rv) then .err
+      -- 03fb34b: a numeric constant must be representable in the result type (`check.representable`)
+      let repr := match x.rv with
+        | .const c => representableConstY T.ops c r.under.kind
+        | _ => true
+      if T.retConstChecked && x.ty.isUntyped && isNumberT T.ops (.s r) && !repr then .err
+      retValsY T rs rest
     | _ => retValsY T rs rest                  -- unary / arithmetic node: its type was replaced by the result type (shortcut)
 
 def retY (T : TcFacts) (results : List STy) (vals : List (Shape × Opnd)) : Res Unit := do
